@@ -59,6 +59,16 @@ func genC07(c *Ctx) {
 			}
 		}
 	}
+	// (a3) concurrent consume with long-running callbacks bound to the context they were given: when one callback fails (or
+	//      panics) the library itself has to cancel its siblings, otherwise the terminal never returns
+	for cc := 2; cc <= 4; cc++ {
+		for _, n := range []int{cc, cc + 1, 2*cc + 1} {
+			for f := 0; f < cc && f < 3; f++ {
+				emit(true, fmt.Sprintf("ccons c=%d n=%d sync=1 mg=0 ctxbound=1 mf=%d script=-", cc, n, f))
+				emit(true, fmt.Sprintf("ccons c=%d n=%d sync=1 mg=0 ctxbound=1 mp=%d script=-", cc, n, f))
+			}
+		}
+	}
 	// (b) seeded random: every wrapper / fault / early stop, optional cancel, gated source (reader blocked in Emit)
 	nr := c.Pick(500, 6000)
 	ops := []string{"cmap", "cmap", "ccons", "buf", "nest", "pipe"}
